@@ -216,6 +216,7 @@ def check(rep, prop, tier, seed):
             diff_groups.setdefault(part, []).append(i)
     if prop == "C12":
         combined_alias_check(rep, spec, diff_groups)
+        F.c_text_accessors(rep, prop, spec, exe, rng)
     pipeline.report_proof_failures(rep, prop, res, diff_groups)
     cells = {(t["fmt"], t["what"], t["path"]) for t in cs.tags}
     rep.cov.update(evaluations=len(cs.cases), distinct_nontrivial=len(cells),
